@@ -8,6 +8,7 @@ import (
 	"iter"
 	"strconv"
 	"strings"
+	"sync/atomic"
 	"time"
 
 	eventbus "github.com/jilio/ebu"
@@ -39,6 +40,9 @@ var _ eventbus.SubscriptionStore = (*SQLiteStore)(nil)
 // dbOpener is used to open database connections, injectable for testing
 var dbOpener = sql.Open
 
+// memDBCounter gives every in-memory store a distinct database name
+var memDBCounter atomic.Uint64
+
 // New creates a new SQLiteStore with the given path and options.
 //
 // Note: When WithAutoMigrate is enabled (the default), migrations run with
@@ -63,8 +67,10 @@ func New(path string, opts ...Option) (*SQLiteStore, error) {
 	// Build connection string with pragmas
 	var dsn string
 	if cfg.path == ":memory:" {
-		// Use shared cache mode for in-memory databases to allow multiple connections
-		dsn = "file::memory:?mode=memory&cache=shared"
+		// Use shared cache mode for in-memory databases to allow multiple connections.
+		// Each store gets its own named in-memory database: the anonymous shared-cache
+		// database would be shared by every in-memory store of the process.
+		dsn = fmt.Sprintf("file:ebu-memdb-%d?mode=memory&cache=shared", memDBCounter.Add(1))
 	} else {
 		dsn = fmt.Sprintf("file:%s?_busy_timeout=%d", cfg.path, cfg.busyTimeout.Milliseconds())
 	}
